@@ -78,3 +78,13 @@ func (v *VLoop) HasIncomingPeerFrom(ip net.IP) bool {
 	}
 	return false
 }
+
+// HasOutgoingPeerTo tells whether an established outgoing peer has this remote address.
+func (v *VLoop) HasOutgoingPeerTo(ip net.IP) bool {
+	for pe := range v.T.outgoingPeers {
+		if pe.Addr().IP.Equal(ip) {
+			return true
+		}
+	}
+	return false
+}
